@@ -1,33 +1,10 @@
 ------------------------- MODULE Trace_Activation -------------------------
 (* Trace validation of recorded RdpClient executions against Activation.    *)
 (* One trace action per recorded event: IsEvent /\ spec action /\ bindings   *)
-(* of every logged field.  Server messages and client messages are NOT the   *)
-(* harness's opinion: they are the abstract messages the wire grammar        *)
-(* (pass A, Decode.tla) obtained from the recorded bytes.                    *)
-EXTENDS Activation, TraceLib
+(* of every logged field (TraceAct.tla).                                     *)
+EXTENDS TraceAct
 
-VARIABLE l
 tvars == <<vars, l>>
-
-TEmpty == {}
-
-IsEvent(e) == l <= Len(Rec) /\ Rec[l].ev = e /\ l' = l + 1
-
-\* projection of a decoded client frame onto the message algebra of Activation
-StripTime(ev) == IF ev.t = "mouse" THEN [t |-> "mouse", flags |-> ev.flags, x |-> ev.x, y |-> ev.y]
-                 ELSE [t |-> "scancode", flags |-> ev.flags, code |-> ev.code]
-ProjC(d) ==
-  IF ~d.ok THEN [kind |-> "Malformed", why |-> d.why]
-  ELSE IF d.kind \in {"ConfirmActive", "Sync", "FontList"}
-       THEN [initiator |-> d.initiator, channel |-> d.channel, pduSource |-> d.pduSource, kind |-> d.kind, shareId |-> d.shareId]
-  ELSE IF d.kind = "Control"
-       THEN [initiator |-> d.initiator, channel |-> d.channel, pduSource |-> d.pduSource, kind |-> d.kind, shareId |-> d.shareId, action |-> d.action]
-  ELSE IF d.kind = "Input"
-       THEN [initiator |-> d.initiator, channel |-> d.channel, pduSource |-> d.pduSource, kind |-> d.kind, shareId |-> d.shareId,
-             events |-> [k \in 1..Len(d.events) |-> StripTime(d.events[k])]]
-  ELSE [kind |-> d.kind]
-
-Writes(e) == [k \in 1..Len(e.w) |-> ProjC(Dec[e.w[k]])]
 
 TInit == /\ l = 1 /\ act = "WaitDemandActive" /\ shareId = <<>> /\ userId = 0
          /\ out = <<>> /\ cbs = <<>> /\ inres = "none" /\ obs = ObsInit
@@ -38,29 +15,6 @@ TReset == /\ IsEvent("reset")
           /\ act' = "WaitDemandActive" /\ Rec[l].state = act'
           /\ shareId' = <<>> /\ userId' = Rec[l].uid
           /\ out' = <<>> /\ cbs' = <<>> /\ inres' = "none" /\ obs' = ObsInit
-
-TSrv == /\ IsEvent("srv")
-        /\ LET e == Rec[l]
-               m == Dec[e.sb] IN
-           /\ m.ok                       \* the reference server's bytes are a well-formed PDU
-           /\ e.res \in {"ok", "err"}    \* a panic / hang has no spec action; ok vs err is left free
-           /\ Srv(m)
-           /\ act' = e.state
-           /\ out' = Writes(e)
-           /\ cbs' = e.cb
-           /\ e.left = 0                 \* exactly the frame was consumed
-
-TInput == /\ IsEvent("input")
-          /\ LET e == Rec[l] IN
-             /\ Input(e.e, e.api = "try_write")
-             /\ act' = e.state
-             /\ out' = Writes(e)
-             /\ e.res = (IF inres' = "refused" THEN "err" ELSE "ok")
-
-TShutdown == /\ IsEvent("shutdown")
-             /\ Shutdown
-             /\ out' = Writes(Rec[l])
-             /\ Rec[l].res = "ok"
 
 TNext == TReset \/ TSrv \/ TInput \/ TShutdown
 TSpec == TInit /\ [][TNext]_tvars
